@@ -289,6 +289,7 @@ def check(facts, rep, tier, cfg):
     check_option_setters(facts, rep, crate, "C07.R8", ['stream_buffer_size', 'max_flow_id_retries'])
     rep.rule("C07.S1", "S1: every message taken off the outbound queue is handed to the WebSocket sink by the send loop (= C02.R2): the frames this property relies on are not dropped, deduplicated or reordered on the way out")
     import_outbound_queue_rule(facts, rep, tier, cfg, "C07.S1")
+    import_constructor_rule(facts, rep, "C07.S9", ['new_connect', 'new_acknowledge', 'new_reset'])
     rep.rule("C07.S7", "who-may: the functions that touch the critical resources behind this property are those of the reference tree (flow table, closed flag, per-stream / datagram / outbound queues, last-pong timestamp, client id maps, shared TLS identity)")
     import whomay
     whomay.check(facts, rep, "C07.S7", "C07")
